@@ -552,7 +552,7 @@ def _ctx(path):
 
 def _reported(blks):
     """check the given skeletons as ONE module; returns per skeleton (rep dict, has_internal_error)"""
-    from pyanalyze.value import AnyValue, KnownValue, flatten_values, UNINITIALIZED_VALUE
+    from pyanalyze.value import AnySource, AnyValue, KnownValue, flatten_values, UNINITIALIZED_VALUE
     from pa.run import Rec, check
     srcs = [source(b).replace("def run()", "def run_%d()" % k) for k, b in enumerate(blks)]
     code = PRE + "".join(srcs)
@@ -584,7 +584,11 @@ def _reported(blks):
                         elif sv is UNINITIALIZED_VALUE:
                             s.add(UNB)
                         elif isinstance(sv, AnyValue):
-                            s.add("<any>")
+                            # resolve_name puts Any[error] where the unbound state was (and reports it); any other Any means the value is not tracked
+                            if sv.source is AnySource.error:
+                                s.add(UNB)
+                            else:
+                                s.add("<any>")
                 if und.get(n.args[0].lineno):
                     s.add(UNB)
                 rep[kk] = s
